@@ -72,13 +72,67 @@ def run(db, rep, tier):
                           "capture although frames remain")
         else:
             rep.ok("R4-loop-shape", "%s:marks-processed" % key, facts.loc(h), "packet_processed = true on every path")
+    rep.rule("R3-read-bounds", "a pcap handler reads the captured bytes itself only under a guard on the captured length", 9)
+    for fid in sorted(seen):
+        h = db.fn(fid)
+        if h is not None:
+            read_bounds(db, rep, h)
     loop_shape(db, rep, f)
     rep.explanation = ("Decides the 'never lets an exception escape from the per-packet loop' clause for the pcap callbacks and "
                        "the structural part of 'skips malformed frames, ends cleanly': escape sets of all %d installed handlers, "
-                       "the processed-flag protocol and the shape of next_packet's loop. Round-trip of bytes/timestamps and BPF "
+                       "the processed-flag protocol, the handlers' own reads of the frame (R3) and the shape of next_packet's loop. Round-trip of bytes/timestamps and BPF "
                        "agreement are not decided." % len(seen))
     rep.assumptions += ["libpcap invokes the handler at most once per pcap_loop(...,1,...) call",
                         "allocation failure ignored"]
+
+
+def read_bounds(db, rep, h):
+    """the handler's own accesses to the frame (3rd parameter): passing (bytes, caplen) on is the parsers' business
+    (C01); a direct read needs a dominating comparison of the captured length"""
+    from vlib import cond
+    key = h["id"].split("(")[0]
+    if len(h["params"]) < 3:
+        rep.analysis_broken("%s: not a pcap handler signature" % key)
+        return
+    pb = h["params"][2]["var"]
+    ph = h["params"][1]["var"]
+    g = cfg.FnCFG(h)
+    tainted = {pb}
+    for n in facts.fn_nodes(h):
+        if n["k"] == "VarDecl" and n.get("c") and any(x["k"] == "DeclRefExpr" and x.get("var") in tainted for x in facts.walk(n["c"][0])):
+            t = facts.tyi(h, n.get("t")) or {}
+            if t.get("k") == "ptr":
+                tainted.add(n["var"])
+    idx, par = facts.index_fn(h)
+    bad = None
+    n_reads = 0
+    for n in facts.fn_nodes(h):
+        acc = None
+        if n["k"] == "MemberExpr" and n.get("arrow") and n.get("isfield"):
+            b = facts.strip_all(n["c"][0])
+            if b["k"] == "DeclRefExpr" and b.get("var") in tainted:
+                acc = n
+        if n["k"] == "UnaryOperator" and n.get("op") == "*" or n["k"] == "ArraySubscriptExpr":
+            b = facts.strip_all(n["c"][0])
+            if b["k"] == "DeclRefExpr" and b.get("var") in tainted:
+                acc = n
+        if acc is None:
+            continue
+        n_reads += 1
+        guarded = False
+        for op, l, r in cond.guards_facts(g, g.pos(acc)):
+            txt = facts.expr_str(l) + (facts.expr_str(r) if r is not None else "")
+            if "caplen" in txt and op in (">=", ">", "<", "<=", "!=", "=="):
+                guarded = True
+        if not guarded:
+            bad = acc
+            break
+    if bad is not None:
+        rep.violation("R3-read-bounds", key, facts.loc(h, bad),
+                      "the handler reads `%s` from the captured frame without any check of h->caplen: a zero-length frame in a capture file is read out of bounds"
+                      % facts.expr_str(bad)[:40])
+    else:
+        rep.ok("R3-read-bounds", key, facts.loc(h), "%d direct read(s) of the frame, all under a caplen guard; otherwise (bytes, caplen) is handed to a parser" % n_reads)
 
 
 def loop_shape(db, rep, f):
